@@ -226,9 +226,9 @@ Proof. intros. repeat split. Qed.
     (sorted) representation. *)
 Theorem map_macros_visit_sorted_keys : forall rs E d m a0 a1,
   call_macro_impl rs E d #"filter" (VMap m) [a0; a1] =
-    with_ident rs a0 (fun x => filter_loop rs E d x a1 (map (fun kv => VString (fst kv)) m) []) /\
+    with_ident rs E a0 (fun x => filter_loop rs E d x a1 (map (fun kv => VString (fst kv)) m) []) /\
   call_macro_impl rs E d #"map" (VMap m) [a0; a1] =
-    with_ident rs a0 (fun x => map_loop rs E d x None a1 (map (fun kv => VString (fst kv)) m) []).
+    with_ident rs E a0 (fun x => map_loop rs E d x None a1 (map (fun kv => VString (fst kv)) m) []).
 Proof. intros. split; reflexivity. Qed.
 
 (** Loop iterations do not consume the depth budget: every body of the loop
